@@ -476,3 +476,9 @@ def r05_9(ctx):
     early = [r for r in walk_no_nested(rp.node) if isinstance(r, ast.Return) and scr.guards(r)]
     ok = all(ast.unparse(r.value) == a and any("DM" in ast.unparse(t) for t, p in scr.guards(r)) for r in early)
     ctx.check(ok, "_replace returns numeric input unchanged", detail="shortcut", expected="if isinstance(vvcat(args), DM): return args", found="; ".join(ast.unparse(r.value) for r in early), fi=rp)
+
+
+@rule("R05.10", min_instances=1, desc="a method that does not integrate quadratures rejects them: under SplineMethod ocp.integral terms would otherwise read the initial running quadrature 0 (shared with C17)")
+def r05_10(ctx):
+    from .c17 import check_spline_quadrature
+    check_spline_quadrature(ctx)
